@@ -149,6 +149,15 @@ CHECKS = {
         design_ref='DESIGN.md section 5 C17',
         note=('"Started" is read as the library documents it (trunk built or a rule applied). Real-time behaviour of build_timeout is '
               'replaced by a deterministic clock, so only the logic of the limit is judged.')),
+    'C19': dict(
+        category='exploration',
+        technique='Hypothesis finished tableaux x every registered writer format x notation x options; idempotence and an independent token-level rendering of the tree as oracle',
+        text=('Valid, invalid and step-limited tableaux of random arguments are rendered by every registered format in both '
+              'notations under drawn writer options: nothing may raise, rendering twice must give identical text, the plain-text '
+              'output is compared line by line with an independent token rendering of the tree, and for html / latex every node '
+              'sentence and the exact number of designation / closure / quit markers must occur.'),
+        design_ref='DESIGN.md section 5 C19',
+        note='Trusted: tab.tree (C16) and single-sentence LexWriter output (C12).'),
 }
 
 NOT_YET = 'check not built yet in this session (planned, see DESIGN.md section 5); no claim is made'
